@@ -43,7 +43,10 @@ pub enum Tok {
 /// Word characters of the language: letters, digits, underscore (and other connector
 /// punctuation / marks are not in any alphabet the checks use), plus the apostrophe.
 pub fn is_word(c: char) -> bool {
-    c.is_alphanumeric() || c == '_' || c == '\''
+    // the engine's class is `[\w']`: Unicode \w also holds marks, connector punctuation and the
+    // two joiners; of those the checks use the combining diacriticals, U+094D, U+203F, U+2040,
+    // U+200C and U+200D
+    c.is_alphanumeric() || c == '_' || c == '\'' || ('\u{300}'..='\u{36f}').contains(&c) || matches!(c, '\u{94d}' | '\u{203f}' | '\u{2040}' | '\u{200c}' | '\u{200d}')
 }
 
 /// A decimal digit as the language sees it. Only ASCII digits are in the claimed lexical
